@@ -37,7 +37,7 @@ RULE = ("A-cases: decorator configurations api in {attr.s, define, frozen} x aut
         "own __hash__ x own {__eq__,__ne__} x cache_hash x init in {default, init=False, own __init__} x base class "
         "in {object, plain class with __hash__, Exception, attrs bases: frozen / frozen+cache_hash / unsafe_hash / "
         "unsafe_hash+cache_hash / unhashable / eq=False / frozen caching exception / hashable exception / define-frozen, "
-        "each dict and slotted}; thorough = the full product over 8 base kinds for attr.s and define plus seeded random "
+        "each dict and slotted}; thorough = the full product over 7 base kinds for attr.s and define plus seeded random "
         "configurations over everything; quick = every row of the decision-relevant product (api x auto_detect x "
         "auto_exc x eq x hash x unsafe_hash x frozen x own __hash__ x own __eq__/__ne__ x (frozen base, exception "
         "base)) with the remaining dimensions drawn from the seed, plus seeded random configurations. "
@@ -193,7 +193,7 @@ def _cslot(cf):
     return _BASE_SPECS[cf["base"]][3] == "BHCache" and bool(cf["bsl"])
 
 
-CORE_BASES = ["obj", "plain", "exc", "fz", "fzc", "uhc", "un", "xfzc"]
+CORE_BASES = ["obj", "exc", "fz", "fzc", "uhc", "un", "xfzc"]
 ALL_BASES = list(_BASE_SPECS)
 # one representative per (frozen base, exception base)
 DECISION_BASES = {(False, False): ["obj", "plain", "uhc", "un", "uh", "eqf"], (False, True): ["exc", "xuh"],
@@ -415,19 +415,24 @@ def gen_A(tier, rng):
                                 sl=_passed(api, "sl", sl, None, 0), cmp=None, eq=eq, hash=h, unsafe=u,
                                 frozen=_passed(api, "frozen", fz, None, 0), ohash=oh, oeq=oe, one=on, cache=ca,
                                 init=ini, oinit=oi, base=base, bsl=sl))
-        n_random = 30000
+        n_random = 20000
     else:
         for api, ad, ax in itertools.product("SD", (False, True), (False, True)):
             for eq, h, u, fz, oh, (oe, on), bkey in itertools.product(
                     tri, tri, tri, (False, True), (False, True), OWN_CMP, sorted(DECISION_BASES)):
-                ca, ini, oi = rng.choice(INIT_SPECS)
-                sl = rng.random() < 0.5
-                out.append(dict(api=api, ad=_passed(api, "ad", ad, rng, 0.2), ax=_passed(api, "ax", ax, rng, 0.2),
-                                sl=_passed(api, "sl", sl, rng, 0.2), cmp=None, eq=eq, hash=h, unsafe=u,
-                                frozen=_passed(api, "frozen", fz, rng, 0.2), ohash=oh, oeq=oe, one=on, cache=ca,
-                                init=ini, oinit=oi, base=rng.choice(DECISION_BASES[bkey]),
-                                bsl=rng.random() < 0.5))
-        n_random = 3000
+                # every row without cache_hash (the table entry is observable), a third of them also with it
+                specs = [(False,) + rng.choice([(None, False), (None, False), (False, False), (None, True)])]
+                if rng.random() < 0.34:
+                    specs.append(rng.choice(INIT_SPECS[1:]))
+                for ca, ini, oi in specs:
+                    sl = rng.random() < 0.5
+                    out.append(dict(api=api, ad=_passed(api, "ad", ad, rng, 0.2),
+                                    ax=_passed(api, "ax", ax, rng, 0.2), sl=_passed(api, "sl", sl, rng, 0.2),
+                                    cmp=None, eq=eq, hash=h, unsafe=u,
+                                    frozen=_passed(api, "frozen", fz, rng, 0.2), ohash=oh, oeq=oe, one=on,
+                                    cache=ca, init=ini, oinit=oi, base=rng.choice(DECISION_BASES[bkey]),
+                                    bsl=rng.random() < 0.5))
+        n_random = 2500
     for _ in range(n_random):
         api = rng.choice("SSDDF")
         cf = dict(api=api)
@@ -441,7 +446,7 @@ def gen_A(tier, rng):
         cf["ohash"] = rng.random() < 0.4
         cf["oeq"] = rng.random() < 0.35
         cf["one"] = rng.random() < 0.25
-        cf["cache"] = rng.random() < 0.45
+        cf["cache"] = rng.random() < 0.3
         cf["init"] = rng.choice((None, None, True, False))
         cf["oinit"] = rng.random() < 0.3
         cf["base"] = rng.choice(ALL_BASES)
@@ -509,12 +514,18 @@ def _syn_module():
     return m
 
 
+SYNB = "verif_c04_synb"
+
+
 def build_B(cd):
-    mod = _syn_module()
+    # a FRESH module object per class description: attrs copies the defining module's namespace into the
+    # globals of every generated method, so one ever-growing module would cost quadratic memory
+    mod = types.ModuleType(SYNB)
+    sys.modules[SYNB] = mod
     fields = cd["fields"]
 
     def mk(name, parent, idxs, **kw):
-        ns = {"__module__": SYN}
+        ns = {"__module__": SYNB}
         ann = {}
         for i in idxs:
             h, e = fields[i]
@@ -759,6 +770,7 @@ def gen_B(tier, rng):
 
 def _cleanup(lc_before):
     sys.modules.pop(SYN, None)
+    sys.modules.pop(SYNB, None)
     for k in [k for k in linecache.cache if k not in lc_before and k.startswith("<attrs generated")]:
         del linecache.cache[k]
 
